@@ -58,7 +58,7 @@ def int_obs(N):
     o.append(ob("int_N%d" % N, "harness_int",
                 "strtoint/strtoint_clipped == reference integer (strtol syntax, whole string, saturated to int, -1 rejected; clipped to "
                 "symbolic [min,max]) for every string <= %d bytes in an exact object (values that fit an int)" % N,
-                ["C39_N=%d" % N, "KF_EXCLUDE_INT_WRAP"], unwind=U, unwindset=us))
+                ["C39_N=%d" % N, "KF_EXCLUDE_INT_WRAP", "C39_FRONT"], unwind=U, unwindset=us))
     o.append(ob("int_N%d_kf_wrap" % N, "harness_int",
                 "the same on exactly the KF-C39-int-wrap inputs (decimal value outside the range of int)",
                 ["C39_N=%d" % N, "KF_ONLY_INT_WRAP"], unwind=U, unwindset=us,
@@ -135,7 +135,7 @@ def line_obs(tier):
     return o
 
 def obligations(tier):
-    obs = int_obs(12) + time_obs() + opt_obs(tier) + line_obs(tier)
+    obs = int_obs(8) + time_obs() + opt_obs(tier) + line_obs(tier)
     if tier != "quick":
         for o in list(obs):
             if o["name"].startswith(("int_N12", "timeval", "resolv_line_N", "hosts_line_N")) and "kf" not in o["name"]:
